@@ -3114,6 +3114,12 @@ static Type check_statement_impl(TypeChecker *tc, ASTNode *stmt) {
         case AST_LET: {
             Type declared_type = stmt->as.let.var_type;
             Type original_declared_type = declared_type;  /* Save original before modifications */
+
+            /* array<E> of an enum E holds integers (enum constants are integers), not structs */
+            if (declared_type == TYPE_ARRAY && stmt->as.let.element_type == TYPE_STRUCT &&
+                stmt->as.let.type_name && env_get_enum(tc->env, stmt->as.let.type_name)) {
+                stmt->as.let.element_type = TYPE_INT;
+            }
             
             /* Handle generic lists: List<UserType> - Register BEFORE checking expression */
             if (declared_type == TYPE_LIST_GENERIC && stmt->as.let.type_name) {
@@ -5741,6 +5747,13 @@ sdef.is_pub = item->as.struct_def.is_pub;            /* Propagate public visibil
                 Value val = create_void();
                 Type param_type = item->as.function.params[j].type;
                 Type element_type = item->as.function.params[j].element_type;  /* Get actual element type from parameter */
+                if (param_type == TYPE_ARRAY && element_type == TYPE_STRUCT &&
+                    item->as.function.params[j].struct_type_name &&
+                    env_get_enum(env, item->as.function.params[j].struct_type_name)) {
+                    /* array<E> of an enum E holds integers, not structs */
+                    element_type = TYPE_INT;
+                    item->as.function.params[j].element_type = TYPE_INT;
+                }
                 TypeInfo *param_type_info = item->as.function.params[j].type_info;  /* Get TypeInfo for generic types */
 
                 /* Register HashMap<K,V> instantiation for parameters */
@@ -6438,6 +6451,13 @@ sdef.is_pub = item->as.struct_def.is_pub;            /* Propagate public visibil
             for (int j = 0; j < item->as.function.param_count; j++) {
                 Type param_type = item->as.function.params[j].type;
                 Type element_type = item->as.function.params[j].element_type;
+                if (param_type == TYPE_ARRAY && element_type == TYPE_STRUCT &&
+                    item->as.function.params[j].struct_type_name &&
+                    env_get_enum(env, item->as.function.params[j].struct_type_name)) {
+                    /* array<E> of an enum E holds integers, not structs */
+                    element_type = TYPE_INT;
+                    item->as.function.params[j].element_type = TYPE_INT;
+                }
                 TypeInfo *param_type_info = item->as.function.params[j].type_info;
                 Value val;
 
